@@ -47,7 +47,7 @@ PRECS_HEAVY = S.PRECS_HEAVY
 PRECS_XHEAVY = [10, 15, 24, 30, 53, 64, 100]
 
 # evaluations per cell: cost class -> (quick, thorough)
-N_PER_CELL = {1: (40, 320), 2: (15, 120), 3: (6, 48), 4: (3, 20)}
+N_PER_CELL = {1: (40, 320), 2: (15, 120), 3: (6, 48), 4: (2, 14)}
 # estimated seconds per evaluation (all sources) by cost class; used only for balancing the shards
 EST_COST = {1: 0.01, 2: 0.08, 3: 0.4, 4: 2.0}
 
@@ -204,6 +204,15 @@ def cell(label, *gens, **kw):
     """Cell(label, args_p(*gens), pgen=True, **kw)"""
     kw['pgen'] = True
     return Cell(label, args_p(*gens), **kw)
+
+
+def raised(f, extra):
+    """R3 for cells where release 1.3.0 is not self-consistent at p+64 bits because of a known cancellation:
+    f (a function name or a callable f(mp, *args)) evaluated in the reference library with extra(mp, *args) more bits"""
+    def g(mp, *a):
+        with mp.extraprec(int(extra(mp, *a))):
+            return getattr(mp, f)(*a) if isinstance(f, str) else f(mp, *a)
+    return g
 
 
 # ---- three-source consensus -----------------------------------------------------------------------------
@@ -468,6 +477,7 @@ def run(prop, table, shard, rec, tol_exp=8, tmax=20.0):
     r = G.rng(prop, shard['seed'], shard['shard'])
     t_end = time.process_time() + shard.get('budget_s', 1e9)
     counts = collections.Counter()
+    cellcpu = collections.Counter()
     todo = []
     for fname, rg in mine:
         if not hasattr(tree_mp, fname) and not rg.fn:
@@ -496,7 +506,9 @@ def run(prop, table, shard, rec, tol_exp=8, tmax=20.0):
                 if item[3] < n:
                     nxt.append(item)
                 continue
+            tc = time.process_time()
             v = evaluate(tree_mp, prop, fname, rg, specs, p, rec, tol_exp, tmax)
+            cellcpu['%s/%s' % (fname, rg.label)] += time.process_time() - tc
             counts[v] += 1
             item[3] += 1
             if item[3] < n:
@@ -509,6 +521,15 @@ def run(prop, table, shard, rec, tol_exp=8, tmax=20.0):
     for k, v in counts.items():
         rec.event('verdict:' + k, v)
     rec.event('reference consensus evaluations', sum(counts.values()))
+    rec.event('worker cpu seconds', int(time.process_time()))
+    import os
+    if os.environ.get('VERIF_J_PROFILE'):
+        for k, v in cellcpu.items():
+            rec.note('cell-cpu', [k, round(v, 2)], cap=1000)
+    if cellcpu:
+        k = max(cellcpu, key=cellcpu.get)
+        rec.maximum('cell_cpu_seconds', cellcpu[k], {'cell': k})
+    rec.maximum('shard_cpu_seconds', time.process_time(), {'shard': shard['shard']})
 
 
 def required_cells(table, min_frac=0.9):
